@@ -4,32 +4,6 @@ import NdnProofs.Lemmas.Lvs.CompileStatic
 -/
 namespace Ndn.Lvs
 
-theorem nodup_eraseDups {α : Type} [BEq α] [LawfulBEq α] : ∀ (n : Nat) (l : List α), l.length ≤ n → l.eraseDups.Nodup := by
-  intro n
-  induction n with
-  | zero =>
-    intro l hl
-    cases l with
-    | nil => simp
-    | cons a r => simp at hl
-  | succ n ih =>
-    intro l hl
-    cases l with
-    | nil => simp
-    | cons a r =>
-      rw [List.eraseDups_cons, List.nodup_cons]
-      constructor
-      · rw [List.mem_eraseDups, List.mem_filter]
-        simp
-      · apply ih
-        have := List.length_filter_le (fun b => !b == a) r
-        simp at hl
-        omega
-
-theorem nodup_sortDedup {α : Type} [BEq α] [LawfulBEq α] (le : α → α → Bool) (l : List α) : (sortDedup le l).Nodup := by
-  unfold sortDedup
-  exact (isort_perm le _).nodup_iff.mpr (nodup_eraseDups _ _ (Nat.le_refl _))
-
 theorem eq_of_nodup_map {α β : Type} (f : α → β) : ∀ (l : List α), (l.map f).Nodup → ∀ a ∈ l, ∀ b ∈ l, f a = f b → a = b := by
   intro l
   induction l with
